@@ -291,7 +291,10 @@ theorem expr_call (f : Nat) (fn : String) (args : Exprs) (st : St Ω) (h : (fn =
             | [.slice _ _ n] => some ([.int n], st1)
             | [.anys l] => some ([.int l.length], st1)
             | [.nil] => some ([.int 0], st1)
-            | _ => none
+            | _ =>
+              (match W.call "len" vs st1.heap st1.w with
+               | some (rs, h, w) => some (rs, { st1 with heap := h, w := w })
+               | none => none)
           else if fn == "NewResult" then
             match vs with
             | [v] => some ([.result (mkNewResult v)], st1)
